@@ -202,6 +202,89 @@ ALLOWED_GLOBALS = {
 }
 
 
+MUTATORS = ('append', 'add', 'update', 'clear', 'extend', 'pop', 'remove',
+            'setdefault', 'insert', 'popleft', 'appendleft', 'discard',
+            'popitem', 'sort', 'reverse')
+MUTABLE_CTORS = ('list', 'dict', 'set', 'deque', 'defaultdict', 'OrderedDict',
+                 'bytearray', 'collections.deque', 'collections.defaultdict')
+
+
+def _is_mutable_display(e):
+    if isinstance(e, (ast.List, ast.Dict, ast.Set, ast.ListComp, ast.DictComp,
+                      ast.SetComp)):
+        return True
+    return isinstance(e, ast.Call) and norm(e.func) in MUTABLE_CTORS
+
+
+def shared_mutable_attrs(cls):
+    """[(attr, method, construct)]: a container bound once in the class body
+    (so shared by every instance), never re-bound per instance by a
+    constructor, and changed in place through `self`."""
+    out = []
+    chain = cls.mro()
+    level = {}
+    for c in reversed(chain):
+        for name, value in c.class_attrs.items():
+            if value is not None and _is_mutable_display(value):
+                level[name] = c
+    if not level:
+        return out
+    per_instance = set()
+    for c in chain:
+        init = c.methods.get('__init__')
+        if init is not None:
+            for n in walk_own(init.node):
+                if isinstance(n, (ast.Assign, ast.AnnAssign)):
+                    for t in (n.targets if isinstance(n, ast.Assign) else [n.target]):
+                        for x in ast.walk(t):
+                            if self_attr(x) and isinstance(x.ctx, ast.Store):
+                                per_instance.add(x.attr)
+    for c in chain:
+        for m in c.methods.values():
+            for n in walk_own(m.node):
+                hit = None
+                if isinstance(n, ast.Call) and isinstance(n.func, ast.Attribute) \
+                        and n.func.attr in MUTATORS and self_attr(n.func.value):
+                    hit = n.func.value.attr
+                elif isinstance(n, ast.Subscript) and isinstance(n.ctx, (ast.Store, ast.Del)) \
+                        and self_attr(n.value):
+                    hit = n.value.attr
+                elif isinstance(n, ast.AugAssign) and self_attr(n.target):
+                    hit = n.target.attr
+                if hit in level and hit not in per_instance:
+                    out.append((hit, m, n))
+    return out
+
+
+SHARED_SAMPLE = """
+class Sample:
+    pending = []
+    count = 0
+    def __init__(self):
+        self.own = []
+    def put(self, x):
+        self.pending.append(x)
+        self.own.append(x)
+"""
+
+
+def shared_state_selfcheck(A):
+    """The matcher must find the one shared container of the sample class."""
+    from ..index import ClassInfo as CI, FuncInfo as FI
+    tree = ast.parse(SHARED_SAMPLE)
+    mod = next(iter(A.repo.modules.values()))
+    ci = CI(mod, tree.body[0])
+    for sub in tree.body[0].body:
+        if isinstance(sub, ast.FunctionDef):
+            ci.methods[sub.name] = FI(mod, ci, sub)
+        elif isinstance(sub, ast.Assign):
+            ci.class_attrs[sub.targets[0].id] = sub.value
+    got = shared_mutable_attrs(ci)
+    if [g[0] for g in got] != ['pending']:
+        raise AnalysisError('shared-state matcher self-check failed: %r'
+                            % [g[0] for g in got])
+
+
 @rule('R17.b', ('C17',), 'compile and run code writes no module-level or '
       'class-level mutable state', floor=2,
       decides='nothing carries over from one job to the next through hidden '
@@ -261,6 +344,23 @@ def r17b(R):
             R.fail(f, bad[0], 'module- or class-level state is written by code '
                    'that runs during a compile or a run: it survives into the '
                    'next one')
+    # containers bound in a class body and changed through self: one object
+    # for every instance, i.e. for every job and every run
+    shared_state_selfcheck(A)
+    classes = sorted(set(f.cls for f in funcs if f.cls is not None),
+                     key=lambda c: c.qualname)
+    for c in classes:
+        seen_attr = set()
+        for attr, m, node in shared_mutable_attrs(c):
+            if attr in seen_attr:
+                continue
+            seen_attr.add(attr)
+            R.fail(m, node, '%s.%s is bound once in the class body and changed '
+                   'in place through self: every instance - every job, every '
+                   'run - shares the one container' % (c.name, attr),
+                   line=getattr(node, 'lineno', 0))
+    R.ok(entries[0], 'classes scanned for shared class-level containers: %d'
+         % len(classes))
     R.ok(entries[0], 'functions reachable from compile/run entries scanned: %d' % n)
     R.ok(entries[1], 'allowed global state: %s' % ', '.join(
         '%s.%s' % k for k in sorted(ALLOWED_GLOBALS)))
